@@ -218,7 +218,47 @@ def _call_with_globals2(interp: Interp, unit: FuncUnit, self_obj, globs):
     return interp.call_unit(unit, [], {}, self_obj)
 
 
+def rule_flags_on_every_path(ctx: Ctx, out: Collector) -> bool:
+    """EX-3: every path of build() to the construction of the DAG classifies the execution mode of the nodes
+    (the pool flags are computed for single-node DAGs as well as for traversed ones)."""
+    from .bd import _builder_class
+    b = _builder_class(ctx)
+    build = b.methods['build']
+    g = ctx.graph(build.fid, depth=6)
+    ctor = [ev for ev in g.events('call') if ev.inst.parent is None and any(t[0] == 'class' and t[1].name == 'DAG' for t in ev.info.get('targets', ()))]
+    if not ctor:
+        raise AnalysisError('build() does not construct a DAG (EX-3 anchor vanished)')
+    classify = {ev.id for ev in g.events('call') if any(t[0] == 'ext' and t[1] == 'inspect.iscoroutinefunction' for t in ev.info.get('targets', ()))
+                and 'builder' in ev.inst.unit.module.name}
+    from ..cfg import find_path
+    # the calls of build()'s own frame whose activation contains the classification
+    barrier = set()
+    for ev in g.events('call'):
+        callee = ev.info.get('callee')
+        if ev.inst.parent is not None or callee is None:
+            continue
+        for cid in classify:
+            cur = g.evs[cid].inst
+            while cur is not None and cur is not callee:
+                cur = cur.parent
+            if cur is callee:
+                barrier.add(ev.id)
+    path = find_path(g, g.entry, {ctor[0].id}, avoid=barrier, labels=EXC_LABELS)
+    # a classification that only happens inside the traversal loop is skipped when the loop body never runs:
+    # require a classification that is not under the worklist loop, or both branches of build() to contain one
+    cons = f'{build.module.name}::{build.qualname}::pool flags are computed on every path to DAG(...)'
+    if path is None and classify:
+        out.ok('EX-3', cons, ctor[0].where(), 'every path to DAG(...) passes the execution-mode classification of the node map')
+        return True
+    out.bad('EX-3', cons, ctor[0].where(), 'a path of build() constructs the DAG without classifying the execution mode of its nodes '
+                                           '(e.g. the single-node path): both pool flags stay False, the pre-run validation is skipped and a '
+                                           'missing pool surfaces as an ordinary node error in the middle of the run', path_text(g, path or []))
+    return False
+
+
 def rule_decision_table(ctx: Ctx, out: Collector) -> None:
+    if not rule_flags_on_every_path(ctx, out):
+        return              # EX-3 already reports the broken link between builder flags and dispatch
     """EX-2 / EX-3: for each of the 8 kinds of node (coroutine?, process tag?, non_async tag?) the pool that
     run_node fetches is among the pools DAG.run validated, following the flags from the builder through
     build() and DAG(...)."""
